@@ -112,6 +112,19 @@ def _worker_batch(args):
     return out
 
 
+def _cold_digest(args):
+    prop_id, base_seed, tier, i = args
+    from . import coldrun
+
+    def one(_):
+        seed = run_seed(base_seed, prop_id, i)
+        return _PROP.execute(_PROP.generate(seed, i, tier))['digest']
+    try:
+        return coldrun.run_in_fork(one, None)
+    except Exception:
+        return None
+
+
 # ------------------------------------------------------------------ minimisation
 def minimise(prop, case, target, budget_s=60.0):
     """Greedy delta debugging: accept any candidate that still shows the same (monitor, signature)."""
@@ -242,7 +255,18 @@ def _explore(prop, a, t_start):
                     out = fut.result(timeout=700)
                     for i, d in out['seeds'].items():
                         if agg['seeds'].get(i) != d:
-                            harness_error = 'NONDETERMINISM run index %d: %s vs %s' % (i, agg['seeds'].get(i), d)
+                            # harness or library?  Two executions of that index, each in a fresh fork of this
+                            # (never-called-the-library) process, must agree if the harness is deterministic
+                            c1 = ex.submit(_cold_digest, (prop.ID, a.seed, a.tier, i)).result(timeout=700)
+                            c2 = ex.submit(_cold_digest, (prop.ID, a.seed, a.tier, i)).result(timeout=700)
+                            if c1 is not None and c1 == c2:
+                                agg['history_dependent'] = agg.get('history_dependent', 0) + 1
+                                print('NOTE run index %d gives %s / %s in two warm workers but %s in every cold process: '
+                                      'the library\'s behaviour depends on what the process did before' % (
+                                          i, agg['seeds'].get(i), d, c1))
+                            else:
+                                harness_error = 'NONDETERMINISM run index %d: %s vs %s (cold: %s vs %s)' % (
+                                    i, agg['seeds'].get(i), d, c1, c2)
                     agg['errors'].extend(out['errors'])
                 agg['recheck'] = len(pick)
         except Exception as e:
@@ -370,6 +394,7 @@ def _write_evidence(prop, a, agg, wall, n_new, known_hits, missing, reported):
         'probes': dict(sorted(agg['probes'].items())),
         'probes_stuck_at_zero': missing,
         'determinism_rechecked_runs': agg.get('recheck', 0),
+        'runs_whose_outcome_depended_on_process_history': agg.get('history_dependent', 0),
         'components': prop.COMPONENTS,
         'known_findings_matched': {fid: n for fid, (f, n) in sorted(known_hits.items())},
         'violations_reported': reported,
